@@ -96,6 +96,14 @@ def hand_back(ctx, rid="R3"):
     ctx.decide(o, total >= 6, "%d sites" % total, "only %d sites found" % total)
 
 
+def is_len_minus_one(fd, c, op):
+    """the operand is computed as `<vec>.len() - 1`"""
+    idx = fd.slice_operand_pure(c, op)
+    return call("alloc::vec::Vec::len") in idx["atoms"] and any(
+        d.instr is not None and d.instr.kind == "assign" and d.instr.rv_kind() == "binop" and d.instr.rv["op"].startswith("Sub")
+        and any(o_.const_val() == 1 for o_ in d.instr.ops) for d in idx["defs"])
+
+
 def last_node_overwrites(ctx, rid="R3"):
     """a path's last element is only overwritten by a depot when it is itself a depot (otherwise a trip is silently lost)"""
     INDEX_MUT = "core::ops::index::IndexMut::index_mut"
@@ -108,11 +116,7 @@ def last_node_overwrites(ctx, rid="R3"):
             if c.decl != INDEX_MUT or not any("NodeIdx" in t for t in c.targs[:1]):
                 continue
             fd = fd or ctx.fd(key)
-            # index = len - 1 ?
-            idx = fd.slice_operand_pure(c, c.args[1])
-            if not (call("alloc::vec::Vec::len") in idx["atoms"] and any(
-                    d.instr is not None and d.instr.kind == "assign" and d.instr.rv_kind() == "binop" and d.instr.rv["op"].startswith("Sub")
-                    and any(op.const_val() == 1 for op in d.instr.ops) for d in idx["defs"])):
+            if not is_len_minus_one(fd, c, c.args[1]):
                 continue
             n += 1
             o = ctx.ob("%s.%s.last-node-overwrite#%d" % (rid, key.split("::")[-1], n), "T12", key,
@@ -124,6 +128,10 @@ def last_node_overwrites(ctx, rid="R3"):
                     ch = direct_chain(fd, d.args[0], follow={N("node"): 1})
                     if any(x.endswith("::last") for x in ch):
                         guarded = True
+                    # or the tested node is read as nodes[len - 1]
+                    for ci in direct_chain(fd, d.args[0], follow={N("node"): 1}, want_instrs=True):
+                        if (ci.decl or ci.callee or "").endswith("Index::index") and len(ci.args) > 1 and is_len_minus_one(fd, ci, ci.args[1]):
+                            guarded = True
             ctx.decide(o, guarded, "guarded by is_depot(last node)",
                        "the element at len-1 is overwritten at %s without testing that the last node is a depot: a path that ends with a "
                        "service trip silently loses that trip" % c.line(), loc=c.line())
@@ -139,27 +147,44 @@ def formation_edits(ctx, rid="R5"):
                     if d.kind == "call-mut":
                         out.append(d)
         return out
+    IDXMUT = "<alloc::vec::Vec as core::ops::index::IndexMut>::index_mut"
+    # per function: the forms known to be right, the forms known to be wrong (from the documented semantics); anything else is undecided
     spec = {
-        "add_at_tail": ({VEC + "::push"}, "appends with Vec::push"),
-        "remove": ({VEC + "::remove"}, "removes with the order-keeping Vec::remove"),
-        "replace": ({VEC + "::push", VEC + "::swap_remove"}, "puts the new vehicle at the old one's position (push + swap_remove(pos))"),
+        "add_at_tail": ([{"push"}], [({"insert"}, "Vec::insert puts the vehicle somewhere else than at the tail")],
+                        "appends with Vec::push"),
+        "remove": ([{"remove"}], [({"swap_remove"}, "swap_remove moves the last vehicle into the gap: the order of the formation changes"),
+                                  ({"pop"}, "pop removes the last vehicle, not the given one")],
+                   "removes with the order-keeping Vec::remove"),
+        "replace": ([{"push", "swap_remove"}, {"index_mut"}, {"remove", "insert"}],
+                    [({"push", "remove"}, "the new vehicle ends up at the tail, not at the old one's position"),
+                     ({"push"}, "the old vehicle is never taken out"), ({"swap_remove"}, "the new vehicle is never put in")],
+                    "puts the new vehicle at the old one's position (push + swap_remove(pos), or an indexed store)"),
     }
-    for fn, (want, text) in spec.items():
+    for fn, (good, bad, text) in spec.items():
         key = TRAINF + "::" + fn
         o, fd = ctx.require_fn("%s.%s.edit-operation" % (rid, fn), "T7", key, "TrainFormation::%s %s" % (fn, text))
         if fd is None:
             continue
-        got = {d.info.get("callee") for d in writes(fd)}
-        got.discard(None)
-        ok = got == want
-        detail = "vector is edited by %s" % sorted(x.split("::")[-1] for x in got)
-        if ok and fn in ("remove", "replace"):
-            idx_call = [c for c in fd.body.calls() if c.callee in (VEC + "::remove", VEC + "::swap_remove")]
-            at = fd.slice_operand_pure(idx_call[0], idx_call[0].args[1])["atoms"] if idx_call else set()
-            if not has_method(at, "core::iter::traits::iterator::Iterator::position"):
-                ok = False
-                detail += "; the index does not come from position(..) of the vehicle"
-        ctx.decide(o, ok, detail, detail + " (expected %s)" % sorted(x.split("::")[-1] for x in want))
+        got = {(d.info.get("callee") or "").split("::")[-1] for d in writes(fd)}
+        got.discard("")
+        detail = "vector is edited by %s" % sorted(got)
+        why = [w for form, w in bad if got == form]
+        if why:
+            ctx.bad(o, detail + ": " + why[0])
+            continue
+        if got not in good:
+            ctx.undecided(o, detail + " - not one of the recognised forms")
+            continue
+        ok = True
+        if fn in ("remove", "replace"):
+            idx_call = [c for c in fd.body.calls() if (c.callee or "").split("::")[-1] in ("remove", "swap_remove", "index_mut", "insert")
+                        and "Vec" in (c.callee or "")]
+            for c in idx_call:
+                at = fd.slice_operand_pure(c, c.args[1])["atoms"]
+                if not has_method(at, "core::iter::traits::iterator::Iterator::position"):
+                    ok = False
+                    detail += "; the index at %s does not come from position(..) of the vehicle" % c.line()
+        ctx.decide(o, ok, detail, detail)
 
 
 def rules(ctx):
@@ -208,7 +233,9 @@ def rules(ctx):
             for t in succ[b]:
                 r = reach(t)
                 if bool(r & nb) != bool(r & sb):
-                    deciding.append(sws[0])
+                    for s2 in condition_switches(fdr, sws[0]):     # with the switches of a short-circuit condition
+                        if s2 not in deciding:
+                            deciding.append(s2)
                     break
         reads = []
         for sw in deciding:
